@@ -189,8 +189,8 @@ func init() {
 			select {
 			case r := <-shutCh:
 				err, runningAtReturn, serveReturned, dialRefused = r.err, r.running, r.serveReturned, r.dialRefused
-			case <-time.After(8 * time.Second):
-				err = fmt.Errorf("shutdown did not return within 8s")
+			case <-time.After(20 * time.Second):
+				err = fmt.Errorf("shutdown did not return within 20s")
 			}
 			took := time.Since(t0)
 			for _, k := range clients {
@@ -238,7 +238,7 @@ func init() {
 					if delay > 0 && doneSeen.Load() != nHold {
 						return Verdict{VSpec, "done-not-closed-at-shutdown-begin", desc}
 					}
-					if nHold == 0 && took > 1500*time.Millisecond {
+					if nHold == 0 && took > 5*time.Second {
 						return Verdict{VSpec, "idle-connections-awaited", desc}
 					}
 					return Ok()
